@@ -49,6 +49,9 @@ inductive Stmt where
   | ext (dst : Var)
   /-- `raise`: the call ends here (no final state; see `Reach` for the states passed on the way) -/
   | abort
+  /-- `dst := <the designated procedure>(…)`: a (possibly recursive) call of the procedure body given to `Exec`,
+      started from an arbitrary environment on the current heap; `dst` receives an arbitrary value -/
+  | call (dst : Var)
   | seq (a b : Stmt)
   | choice (a b : Stmt)
   | loop (a : Stmt)
@@ -89,36 +92,44 @@ structure IsDeepCopy (h h' : Heap) (v : Val) : Prop where
   res : v = .prim ∨ ∃ b, v = .ref b ∧ h b = none ∧ h' b ≠ none
   closed : ∀ a o f b, h a = none → h' a = some o → o f = .ref b → h b = none ∧ h' b ≠ none
 
-inductive Exec : Stmt → State → State → Prop where
-  | skip (σ) : Exec .skip σ σ
+/-- `Exec body s σ σ'`: statement `s` runs from `σ` to `σ'`; `body` is the procedure that `call` statements run -/
+inductive Exec (body : Stmt) : Stmt → State → State → Prop where
+  | skip (σ) : Exec body .skip σ σ
   | copy (dst src σ h' v) (hc : IsDeepCopy σ.heap h' v) :
-      Exec (.copy dst src) σ { σ with env := upd σ.env dst v, heap := h' }
+      Exec body (.copy dst src) σ { σ with env := upd σ.env dst v, heap := h' }
   | new (dst σ a) (ha : σ.heap a = none) :
-      Exec (.new dst) σ { σ with env := upd σ.env dst (.ref a), heap := updH σ.heap a (some (fun _ => .prim)) }
+      Exec body (.new dst) σ { σ with env := upd σ.env dst (.ref a), heap := updH σ.heap a (some (fun _ => .prim)) }
   | newShallow (dst σ a) (ha : σ.heap a = none) :
-      Exec (.newShallow dst) σ
+      Exec body (.newShallow dst) σ
         { σ with env := upd σ.env dst (.ref a), heap := updH σ.heap a (some (fun _ => .prim)) }
-  | load (dst src f σ) : Exec (.load dst src f) σ { σ with env := upd σ.env dst (loadVal σ src f) }
-  | store (obj f src σ) : Exec (.store obj f src) σ (storeVal σ obj f (σ.env src))
-  | mov (dst src σ) : Exec (.mov dst src) σ { σ with env := upd σ.env dst (σ.env src) }
-  | havoc (dst σ) : Exec (.havoc dst) σ { σ with env := upd σ.env dst .prim }
-  | ext (dst σ v) : Exec (.ext dst) σ { σ with env := upd σ.env dst v }
-  | seq (a b σ σ₁ σ₂) (h₁ : Exec a σ σ₁) (h₂ : Exec b σ₁ σ₂) : Exec (.seq a b) σ σ₂
-  | choiceL (a b σ σ') (h : Exec a σ σ') : Exec (.choice a b) σ σ'
-  | choiceR (a b σ σ') (h : Exec b σ σ') : Exec (.choice a b) σ σ'
-  | loopNil (a σ) : Exec (.loop a) σ σ
-  | loopCons (a σ σ₁ σ₂) (h₁ : Exec a σ σ₁) (h₂ : Exec (.loop a) σ₁ σ₂) : Exec (.loop a) σ σ₂
+  | load (dst src f σ) : Exec body (.load dst src f) σ { σ with env := upd σ.env dst (loadVal σ src f) }
+  | store (obj f src σ) : Exec body (.store obj f src) σ (storeVal σ obj f (σ.env src))
+  | mov (dst src σ) : Exec body (.mov dst src) σ { σ with env := upd σ.env dst (σ.env src) }
+  | havoc (dst σ) : Exec body (.havoc dst) σ { σ with env := upd σ.env dst .prim }
+  | ext (dst σ v) : Exec body (.ext dst) σ { σ with env := upd σ.env dst v }
+  /-- the callee runs the procedure body from ANY environment (parameter passing is over-approximated) on the
+      caller's heap; afterwards the caller continues with the callee's heap and log, its own environment, and an
+      arbitrary value in `dst` -/
+  | call (dst σ env' σ₁ v) (h : Exec body body { σ with env := env' } σ₁) :
+      Exec body (.call dst) σ { env := upd σ.env dst v, heap := σ₁.heap, log := σ₁.log }
+  | seq (a b σ σ₁ σ₂) (h₁ : Exec body a σ σ₁) (h₂ : Exec body b σ₁ σ₂) : Exec body (.seq a b) σ σ₂
+  | choiceL (a b σ σ') (h : Exec body a σ σ') : Exec body (.choice a b) σ σ'
+  | choiceR (a b σ σ') (h : Exec body b σ σ') : Exec body (.choice a b) σ σ'
+  | loopNil (a σ) : Exec body (.loop a) σ σ
+  | loopCons (a σ σ₁ σ₂) (h₁ : Exec body a σ σ₁) (h₂ : Exec body (.loop a) σ₁ σ₂) : Exec body (.loop a) σ σ₂
 
 /-- the states a run of `s` from `σ` passes through, the final ones included; a run that ends in `abort`
     (a Python `raise`) has no final state, but every state before it is reached -/
-inductive Reach : Stmt → State → State → Prop where
-  | start (s σ) : Reach s σ σ
-  | done (s σ σ') (h : Exec s σ σ') : Reach s σ σ'
-  | seqL (a b σ σ') (h : Reach a σ σ') : Reach (.seq a b) σ σ'
-  | seqR (a b σ σ₁ σ') (h₁ : Exec a σ σ₁) (h₂ : Reach b σ₁ σ') : Reach (.seq a b) σ σ'
-  | choiceL (a b σ σ') (h : Reach a σ σ') : Reach (.choice a b) σ σ'
-  | choiceR (a b σ σ') (h : Reach b σ σ') : Reach (.choice a b) σ σ'
-  | loop (a σ σ₁ σ') (h₁ : Exec (.loop a) σ σ₁) (h₂ : Reach a σ₁ σ') : Reach (.loop a) σ σ'
+inductive Reach (body : Stmt) : Stmt → State → State → Prop where
+  | start (s σ) : Reach body s σ σ
+  | done (s σ σ') (h : Exec body s σ σ') : Reach body s σ σ'
+  | seqL (a b σ σ') (h : Reach body a σ σ') : Reach body (.seq a b) σ σ'
+  | seqR (a b σ σ₁ σ') (h₁ : Exec body a σ σ₁) (h₂ : Reach body b σ₁ σ') : Reach body (.seq a b) σ σ'
+  | choiceL (a b σ σ') (h : Reach body a σ σ') : Reach body (.choice a b) σ σ'
+  | choiceR (a b σ σ') (h : Reach body b σ σ') : Reach body (.choice a b) σ σ'
+  | loop (a σ σ₁ σ') (h₁ : Exec body (.loop a) σ σ₁) (h₂ : Reach body a σ₁ σ') : Reach body (.loop a) σ σ'
+  /-- a state passed inside the callee (reported with the callee's environment: heap and log are what matter) -/
+  | callIn (dst σ env' σ') (h : Reach body body { σ with env := env' } σ') : Reach body (.call dst) σ σ'
 
 /-! ### the checker -/
 
@@ -184,6 +195,7 @@ def check (T : List Field) : Stmt → AEnv → Option AEnv
   | .havoc dst, e => some (setTag e dst .prim)
   | .ext dst, e => some (setTag e dst .shared)
   | .abort, e => some (List.replicate e.length .prim)
+  | .call dst, e => some (setTag e dst .shared)
   | .seq a b, e => (check T a e).bind (check T b)
   | .choice a b, e =>
     match check T a e, check T b e with
@@ -194,6 +206,10 @@ def check (T : List Field) : Stmt → AEnv → Option AEnv
 /-- a reducer / view body with `nvars` variables, all of which (arguments, `self`, globals) start as `shared` -/
 def wellFormed (T : List Field) (nvars : Nat) (p : Stmt) : Bool :=
   (check T p (List.replicate nvars .shared)).isSome
+
+/-- a program `p` together with the procedure `body` its `call` statements run -/
+def wellFormedWith (T : List Field) (nvars : Nat) (body p : Stmt) : Bool :=
+  wellFormed T nvars p && wellFormed T nvars body
 
 /-- the tag the checker derives for variable `x` at the end -/
 def resultTag (T : List Field) (nvars : Nat) (p : Stmt) (x : Var) : Option Tag :=
